@@ -24,11 +24,14 @@ Definition geomq (a q : Q) (n : nat) : list Q := map (fun i => a * qpow q i) (se
 Definition geom_left (h q : Q) (n : nat) : list Q := map Qopp (rev (geomq h q n)).
 
 (* CTMCGridGeometric.create_with_bounds(h, (l, r), dim, nb) / CTMCGridGeometric.__init__ after compute_truncation, one axis,
-   for l = -(h*ql^(nb-1)), r = h*qr^(nb-1).  Guards as in the code: ValueError (None) if nb < 2 or not (l < -h and h < r). *)
+   for l = -(h*ql^(nb-1)), r = h*qr^(nb-1).  Guards as in the code, in the code's order: ValueError (None) if nb < 2, if not h > 0
+   (wave 7: F-C13-7 repaired, /repo branch fix-w7-c13 -- before that h <= 0 was accepted and np.geomspace returned nan / a
+   decreasing axis), or if not (l < -h and h < r). *)
 Definition geom_l (h ql : Q) (nb : nat) : Q := - (h * qpow ql (nb - 1)).
 Definition geom_r (h qr : Q) (nb : nat) : Q := h * qpow qr (nb - 1).
 Definition geometric_axis (h ql qr : Q) (nb : nat) : option (list Q * nat) :=
   if (nb <? 2)%nat then None
+  else if negb (Qltb 0 h) then None
   else if Qltb (geom_l h ql nb) (- h) && Qltb h (geom_r h qr nb)
        then Some (assemble (geom_left h ql nb) (geomq h qr nb)) else None.
 Definition geometric_grid (h ql qr : Q) (nb dim : nat) : option grid :=
@@ -81,9 +84,10 @@ Definition geomspace_R (a b : R) (n : nat) : list R :=
   | S (S m) => map (fun i => gs_point a b (Z.of_nat (S m)) (Z.of_nat i)) (seq 0 n)
   end.
 
-(* the constructor; same guards as the code *)
+(* the constructor; same guards as the code (nb >= 2, then h > 0 -- wave 7, F-C13-7 repaired --, then l < -h and h < r) *)
 Definition geometric_axis_R (l h r : R) (nb : nat) : option (list R * nat) :=
   if (nb <? 2)%nat then None
+  else if Rle_dec h 0 then None
   else if Rlt_dec l (- h) then
          if Rlt_dec h r then Some (assembleR (geomspace_R l (- h) nb) (geomspace_R h r nb)) else None
        else None.
